@@ -1234,3 +1234,31 @@ mut("C11", "r26-prefix-printed-raw", "database/query/query.go",
 mut("C11", "r26-orderby-printed-raw", "database/query/query.go",
     "\t\torderBy = fmt.Sprintf(\" orderby %s\", escapeString(q.orderBy))", "\t\torderBy = fmt.Sprintf(\" orderby %s\", q.orderBy)",
     "C11-R26|database/query.(*Query).Print", comment="reverts fix 4f71328 (orderby)")
+
+def r12(prop, name, seed, expect):
+    from_patch(prop, name, seed, expect, comment="round-12 seed " + seed)
+r12("C02", "r29-badger-query-sends-parsed-item", "C02-l2", "C02-R29|")
+r12("C03", "r17-getmeta-shadows-result", "C03-l1", "C03-R17|database.GetMeta")
+r12("C03", "r18-get-serves-cache-unchecked", "C03-l2", "C03-R18|")
+r12("C04", "r22-empty-list-exported-as-unset", "C04-l1", "C04-R22|config.(*valueCache).getData")
+r12("C05", "r18-initial-context-not-cancelable", "C05-l1", "C05-R18|modules.initNewModule")
+r12("C05", "r19-worker-skipped-on-cancelled-context", "C05-l2", "C05-R19|modules.(*Module).runWorker")
+r12("C06", "r21-stop-result-read-only-when-complete", "C06-l1", "C06-R21|modules.(*Module).stopAllTasks")
+r12("C07", "r22-new-task-without-default-delay", "C07-l1", "C07-R22|modules.(*Module).newTask")
+r12("C07", "r23-enabled-dependency-not-marked", "C07-l2", "C07-R23|modules.(*Module).markDependencies")
+r12("C08", "r17-newwrapper-substitutes-default-format", "C08-l1", "C08-R17|database/record.NewWrapper")
+r12("C09", "r19-mimedump-nil-shortcut", "C09-l1", "C09-R19|formats/dsd.MimeDump")
+r12("C09", "r20-mimeload-looks-up-subtype-itself", "C09-l2", "C09-R20|")
+r12("C10", "r13-get-refuses-nil-peek", "C10-l1", "C10-R13|container.(*Container).Get")
+clone("C10-r13-get-refuses-nil-peek", "C16", "r22-get-refuses-nil-peek", "C16-R22|container.(*Container).Get", "round-12 seed C10-l1")
+r12("C11", "r28-empty-regex-left-uncompiled", "C11-l1", "C11-R28|database/query.newRegexCondition")
+r12("C11", "r27-key-escaped-only-with-space", "C11-l2", "C11-R27|database/query.(*stringCondition).string")
+r12("C12", "r21-devmode-memoised", "C12-l2", "C12-R21|api.registerConfig")
+r12("C14", "r19-putnew-recreates-meta", "C14-l1", "C14-R19|")
+r12("C14", "r20-exists-answers-from-meta", "C14-l2", "C14-R20|database.(*Interface).Exists")
+r12("C15", "r14-low-priority-start-uses-medium-default", "C15-l1", "C15-R14|")
+r12("C17", "r15-fstree-reads-with-walk-size", "C17-l2", "C17-R15|")
+r12("C19", "r29-addindex-partial-copy", "C19-l1", "C19-R29|updater.AddIndex")
+r12("C19", "r28-selectversions-fast-path", "C19-l2", "C19-R28|updater.(*ResourceRegistry).SelectVersions")
+r12("C20", "r14-unset-empties-callers-map", "C20-l1", "C20-R14|log.UnSetPkgLevels")
+from_patch("C01", "r18-ctrl-timeout-error-shadowed", "C01-k2", "C01-R18|modules.runCtrlFnWithTimeout", comment="round-11 seed C01-k2, also an A30 instance")
